@@ -323,6 +323,8 @@ ELEMS = {
     "K": ("K(x = 1)", False, False), "String": ("\"s\"", False, True), "Option[Int64]": ("None[Int64]", False, False), "Option[K]": ("None[K]", False, False),
     "()": ("()", False, False),
 }   # type -> (value, has zero(), has new_default())
+ELEM_SIZE = {"UInt8": 1, "Bool": 1, "Int32": 4, "Float32": 4, "Char": 4, "Int64": 8, "Float64": 8, "String": 8, "K": 8, "Option[K]": 8,
+             "(Int64, Bool)": 16, "Option[Int64]": 16, "(Int64, Int64, Int64)": 24, "(UInt8, UInt8, UInt8)": 3, "()": 0}
 SIZE_NS = [-1, I64_MIN, 2 ** 31, 2 ** 32, 2 ** 60, 2 ** 61 + 1, 2 ** 62, I64_MAX]
 SIZE_NS_EXTRA = [-2, -(2 ** 31), -(2 ** 32), I64_MIN + 1, 2 ** 61, 2 ** 61 - 1, 2 ** 63 - 8, 2 ** 63 - 24, 2 ** 40, 2 ** 59 + 3, 2 ** 62 + 2 ** 61, (2 ** 64) // 24 + 1,
                  (2 ** 63) // 24 + 1, 2 ** 36]
@@ -698,7 +700,14 @@ def run(ctx):
 
         def ns_for(name, c):
             r = ctx.rng("ns:" + name, c.idx)
-            return SIZE_NS + r.sample(SIZE_NS_EXTRA, ctx.pick(0, 4))
+            ns = SIZE_NS + r.sample(SIZE_NS_EXTRA, ctx.pick(0, 4))
+            # lengths whose byte size (length * element size + header, rounded up) is just below / at / beyond 2^63: the window in which
+            # unchecked size arithmetic wraps to a negative size (seeded change C13)
+            es = ELEM_SIZE.get(getattr(c, "elem", None), 8)
+            if es:
+                top = I64_MAX // es
+                ns = ns + [top - r.randrange(0, 3), top - r.randrange(3, 24), (I64_MAX - 16) // es + r.randrange(0, 2)]
+            return ns
         run_sizes(ctx, progs, GCS + ("zero",), ns_for, timeout)
     # memcheck sample (thorough)
     if "memcheck" in only and not quick:
